@@ -165,10 +165,46 @@ def do_chunk(chunk):
     return acc
 
 
+def do_lower_bound(args):
+    """The top of the cost range cannot be hashed within any budget, but its opposite can be observed: a call that
+    asks for 2^31 or more iterations and RETURNS A HASH within a few seconds has not done the work (no machine
+    here performs 2 * 10^9 HMAC-SHA1 or 10^9 SHA-crypt rounds in that time).  A call still running at the deadline
+    is what is expected; the worker is then discarded."""
+    m, prefix, count, budget = args
+    acc = common.Acc()
+    w = pool.Worker(rt.PATHS["vw-opt"])
+    rb = facts.rbytes_pattern("rnd", 64, 5)
+    res, end = w.run([rt.obj_line(0), rt.gensalt_line("rn", prefix, count, rb, 64, 192)], 60)
+    if end is not None or res[1]["r"] != "O":
+        w.stop()
+        acc.inconc("lower bound: gensalt(%s, %d) failed" % (m, count))
+        return acc
+    g = rt.out_of(res[1])
+    ln = rt.crypt_line("crypt_rn", 0, b"pw", g)
+    res2, end2 = w.run([ln], budget)
+    w.stop()
+    acc.count("evaluations")
+    acc.count("work_lower_bound_probes")
+    acc.cls((m, "work-lower-bound", count > 2 ** 32))
+    if end2 is None and rt.hash_of(res2[0]) is not None:
+        acc.violation("%s/cost-not-applied/%s" % (PID, m),
+                      "crypt_gensalt(%s, count=%d) gives %r, and crypt returns a hash for it within %d s: the "
+                      "requested cost cannot have been applied" % (m, count, g, budget),
+                      rt.replay_obj("opt", [rt.obj_line(0), ln]))
+    elif isinstance(end2, pool.Death):
+        acc.inconc("lower bound: worker died on %r" % g)
+    return acc
+
+
 def run(tier):
     run_ = common.Run(PID, tier, "exploration")
-    rt.prepare([FL])
+    rt.prepare([FL, "opt"])
     cases = make_cases(run_.seed, tier)
+    lb = [("sha1crypt", b"$sha1", 3000000000, 4), ("sha1crypt", b"$sha1", 2 ** 64 - 1, 4),
+          ("sha256crypt", b"$5$", 999999999, 4), ("sha512crypt", b"$6$", 2 ** 64 - 1, 4),
+          ("bcrypt", b"$2b$", 31, 4)]          # each needs minutes to days; margins of two orders of magnitude
+    for acc in pool.pmap(do_lower_bound, lb):
+        run_.merge(acc)
     for acc in pool.pmap(do_chunk, pool.chunks(cases, 150)):
         run_.merge(acc)
     a = run_.acc
